@@ -20,6 +20,7 @@ def run(ctx):
     lib_gatefn.treeseq_init(ctx, P)
     lib_gatefn.gate_dispatch(ctx, P)
     lib_gatefn.gate_spec(ctx, P)
+    lib_gatefn.gate_loops(ctx, P)
     gate = set(lib_gatefn.GATE_FUNCS) | {"check_offsets", "tsk_treeseq_init"}
     seen = lib_guards.analyse(ctx, P, funcs=gate)
     lib_guards.presence(ctx, seen, funcs=gate, P=P)
